@@ -142,7 +142,7 @@ proof fn lemma_tot_push(h: Seq<Value>, v: Value)
 //@sub /zoom_item\.overlap\s*\.get_first\(\)\s*\.map\(\|f\| f\.start < next_start\)\s*\.unwrap_or\(false\)/ => first_starts_before(&zoom_item.overlap, next_start)
 //@sub /next_val\.map\(\|v\| v\.start\)\.unwrap_or\(u32::max_value\(\)\)/ => next_val.unwrap_or(u32::MAX)
 //@sub /zoom_item\s*\.live_info\s*\.take\(\)\s*\.map\(\|\(mut zoom_item, total_items\)\| \{\s*zoom_item\.summary\.total_items = total_items;\s*zoom_item\s*\}\)\s*\.unwrap\(\),\s*\);/ => close_live(zoom_item.live_info.take()));
-//@sub /!zoom_item\.records\.is_empty\(\)/ => (zoom_item.records.len() != 0)
+//@sub /!zoom_item\.records\.is_empty\(\)/ => (zoom_item.records.len() != 0) min=0
 //@sig
     requires
         [[L: pre]]
